@@ -157,8 +157,10 @@ def check(repo: Repo, rep: Report) -> None:
     if nxt and secv and nowv and calls:
         tv = u(nxt[0].node.args[0])
         d = [s for s in sites(per) if isinstance(s.node, ast.Assign) and u(s.node.targets[0]) == tv]
-        ok = bool(d) and secv in u(d[0].node.value) and "scheduler.now" in u(d[0].node.value) and isinstance(d[0].node.value, ast.BinOp) \
-            and isinstance(d[0].node.value.op, ast.Sub) and nowv[0].index < calls[0].index < d[0].index
+        from ..rules import inline_locals as _inl35
+        dv_ = _inl35(per, d[0].node.value) if d else None      # look through `elapsed = ...; remaining = seconds - elapsed`
+        ok = bool(d) and secv in u(dv_) and "scheduler.now" in u(dv_) and isinstance(dv_, ast.BinOp) \
+            and isinstance(dv_.op, ast.Sub) and nowv[0].index < calls[0].index < d[0].index
     rep.ob("P4-period", per, "next delay = period - (now - tick start)", ok, "the next tick is not scheduled one period after the start of this tick")
     ok = len(first) == 1 and u(first[0].node.args[0]) == sp.params[1] and u(first[0].node.args[1]) == "periodic"
     rep.ob("P4-period", sp, "first tick after one period", ok, "the first tick is not scheduled one period after schedule_periodic")
